@@ -300,3 +300,249 @@ Lemma c14_uri : forall p,
 Proof.
   intros p. split. apply strip_file_uri. split. apply strip_plain. intros H meta d o. now apply hal_set_uri.
 Qed.
+
+(* ================================================================== the premise on the SCRIPTS ================ *)
+(* ------------------------------------------------------------------ scripts and counters are left alone *)
+Definition scr_frame (o o' : os) : Prop := cscr o' = cscr o /\ wscr o' = wscr o /\ nwrite o' = nwrite o.
+
+Lemma os_open_scr : forall o p o1 r, os_open o p = (o1, r) -> scr_frame o o1.
+Proof.
+  intros o p o1 r H. unfold os_open in H.
+  destruct (match p with EmptyString => true | _ => match cscr o (nopen o) with CFailOpen => true | _ => false end end).
+  - inversion H; subst. unfold scr_frame. auto.
+  - cbv zeta in H. inversion H; subst. destruct (fs o p); unfold scr_frame; auto.
+Qed.
+
+Lemma os_close_scr : forall o fd, scr_frame o (os_close o fd).
+Proof. intros o [n|]; unfold os_close; [destruct (lookup n (tbl o))|]; unfold scr_frame; auto. Qed.
+
+Lemma scr_frame_trans : forall a b c, scr_frame a b -> scr_frame b c -> scr_frame a c.
+Proof. unfold scr_frame. intros a b c (A1 & A2 & A3) (B1 & B2 & B3). repeat split; congruence. Qed.
+
+Lemma file_is_writable_scr : forall o p o' ok, file_is_writable o p = (o', ok) -> scr_frame o o'.
+Proof.
+  intros o p o' ok H. unfold file_is_writable in H. destruct (fs o p). { inversion H; subst. unfold scr_frame; auto. }
+  destruct (os_open o p) as [o1 [fd|]] eqn:E; apply os_open_scr in E.
+  - pose proof (os_close_scr o1 (Some fd)) as C. remember (os_close o1 (Some fd)) as oc.
+    inversion H; subst o' ok. apply (scr_frame_trans o o1); [exact E|]. apply (scr_frame_trans o1 oc); [exact C|].
+    unfold scr_frame; auto.
+  - inversion H; subst. apply (scr_frame_trans o o1); [exact E|]. unfold scr_frame; auto.
+Qed.
+
+Lemma file_create_scr : forall o p o' ok fid, file_create o p = (o', ok, fid) -> scr_frame o o'.
+Proof.
+  intros o p o' ok fid H. unfold file_create in H.
+  destruct (os_open o p) as [o1 [fd|]] eqn:E; apply os_open_scr in E.
+  - pose proof (os_close_scr (log o1 (ELock fd false)) (Some fd)) as C.
+    remember (os_close (log o1 (ELock fd false)) (Some fd)) as oc.
+    destruct (cscr o (nopen o)); cbv zeta in H; inversion H; subst o' ok fid.
+    + apply (scr_frame_trans o o1); [exact E|]. unfold scr_frame; simpl; auto.
+    + apply (scr_frame_trans o o1); [exact E|]. unfold scr_frame; simpl; auto.
+    + apply (scr_frame_trans o o1); [exact E|]. apply (scr_frame_trans o1 (log o1 (ELock fd false))); [unfold scr_frame; simpl; auto|].
+      apply (scr_frame_trans _ oc); [exact C|]. unfold scr_frame; simpl; auto.
+  - inversion H; subst. apply (scr_frame_trans o o1); [exact E|]. unfold scr_frame; auto.
+Qed.
+
+(* with a create script that lets every open succeed, a non-empty path can be probed and created *)
+Lemma os_open_ok_script : forall o p, (forall k, cscr o k = COk) -> p <> EmptyString -> exists o1 fd, os_open o p = (o1, Some fd).
+Proof.
+  intros o p C P. unfold os_open. rewrite C. destruct p; [congruence|]. cbv zeta. eauto.
+Qed.
+
+Lemma file_is_writable_ok : forall o p o' ok, (forall k, cscr o k = COk) -> p <> EmptyString ->
+  file_is_writable o p = (o', ok) -> ok = true.
+Proof.
+  intros o p o' ok C P H. unfold file_is_writable in H. destruct (fs o p). { now inversion H. }
+  destruct (os_open_ok_script o p C P) as (o1 & fd & E). rewrite E in H. now inversion H.
+Qed.
+
+Lemma file_create_ok : forall o p o' ok fid, (forall k, cscr o k = COk) -> p <> EmptyString ->
+  file_create o p = (o', ok, fid) -> ok = true.
+Proof.
+  intros o p o' ok fid C P H. unfold file_create in H.
+  destruct (os_open_ok_script o p C P) as (o1 & fd & E). rewrite E, C in H. cbv zeta in H. now inversion H.
+Qed.
+
+(* ------------------------------------------------------------------ file_write on the OS model = Pwrite.file_write1 *)
+Section SimOS.
+  Variable o0 : os.
+  Variable fd : nat.
+  Variable p : path.
+
+  Definition simR (o : os) (s : st1) : Prop :=
+    lookup fd (tbl o) = Some (mkEnt Dev p) /\ fs o p = Some (snd s) /\ nwrite o = fst s /\
+    wscr o = wscr o0 /\ cscr o = cscr o0.
+
+  Lemma os_prim_sim : forall o s off buf, simR o s ->
+    simR (fst (os_pwrite (Some fd) o off buf)) (fst (prim1 (wscr o0) s off buf)) /\
+    snd (os_pwrite (Some fd) o off buf) = snd (prim1 (wscr o0) s off buf).
+  Proof.
+    intros o [k f] off buf (LK & FS & NW & WS & CS). cbn [fst snd] in *.
+    unfold os_pwrite, prim1. rewrite LK. cbn [fe_path]. rewrite FS, WS, NW.
+    destruct (deliver (wscr o0 k) (length buf)) as [w|]; cbn [fst snd]; split; auto; unfold simR; simpl;
+      rewrite ?upd_same; auto 10.
+  Qed.
+
+  Lemma file_write_sim : forall o c off buf, simR o (nwrite o, c) ->
+    let r1 := file_write1 (wscr o0) (nwrite o, c) off buf in
+    exists o', file_write o (Some fd) off buf = (o', snd r1) /\ wscr o' = wscr o0 /\ cscr o' = cscr o0 /\
+               (snd r1 = true -> nwrite o' = fst (fst r1)).
+  Proof.
+    intros o c off buf HR r1.
+    destruct (file_write_gen_sim os st1 (os_pwrite (Some fd)) (prim1 (wscr o0)) simR os_prim_sim o (nwrite o, c) off buf HR)
+      as [HR' Hb].
+    unfold file_write. subst r1. unfold file_write1.
+    destruct (file_write_gen os (os_pwrite (Some fd)) o off buf) as [o1 b1].
+    destruct (file_write_gen st1 (prim1 (wscr o0)) (nwrite o, c) off buf) as [[k1 f1] b2].
+    cbn [fst snd] in *. subst b2. destruct HR' as (_ & _ & NW & WS & CS). cbn [fst] in NW.
+    destruct b1.
+    - exists o1. split; [reflexivity|]. split; [exact WS|]. split; [exact CS|]. intros _. exact NW.
+    - exists (bump_fail o1). split; [reflexivity|]. split; [exact WS|]. split; [exact CS|]. discriminate.
+  Qed.
+End SimOS.
+
+Lemma sum_zero_tight_nil : forall pat, list_sum pat = 0 -> last pat 1 <> 0 -> pat = [].
+Proof. intros [|a pat] Hs Ht; auto. exfalso. apply Ht. apply sum_zero_last; auto. discriminate. Qed.
+
+(* one append under an admissible script: it answers Ok and consumes exactly the pattern's calls *)
+Lemma append_adm : forall fuel b r o fd c pat d1 o1 st,
+  raw_at r o fd c ->
+  delivers (wscr o) (nwrite o) (length b) pat -> list_sum pat = length b -> zeros pat < 3 -> last pat 1 <> 0 ->
+  step fuel fixed (OAppend (mkPkt b [])) (DRaw r) o = Ret (d1, o1, st) ->
+  st = Ok /\ nwrite o1 = nwrite o + length pat /\ wscr o1 = wscr o /\ cscr o1 = cscr o.
+Proof.
+  intros fuel b r o fd c pat d1 o1 st (RO & RS & RF & LK & FS & OFF) Hd Hs Hz Ht H. cbn [step] in H.
+  unfold hal_append in H. cbn [get_state] in H. rewrite RS in H. cbn [dstate_eqb p_bytes] in H.
+  destruct b as [|x b].
+  - inversion H; subst. rewrite (sum_zero_tight_nil pat Hs Ht). simpl. auto.
+  - cbn [dev_append p_bytes] in H. unfold raw_append in H. rewrite RF, OFF in H.
+    assert (HR : simR o fd (r_uri r) o (nwrite o, c)) by (unfold simR; cbn [fst snd]; auto 10).
+    destruct (file_write_sim o fd (r_uri r) o c (length c) (x :: b) HR) as (o2 & E & WS & CS & NW).
+    rewrite (file_write1_exact (wscr o) pat (nwrite o) c (length c) (x :: b) Hd Hs Hz Ht) in E, NW.
+    cbn [fst snd] in E, NW. rewrite E in H. inversion H; subst. cbn [dstate_eqb]. auto.
+Qed.
+
+Lemma appends_adm : forall fuel pkts rest r o fd c rs d' o',
+  raw_at r o fd c -> admissible (wscr o) (nwrite o) (pkts ++ rest) ->
+  run fuel fixed (map (fun b => OAppend (mkPkt b [])) pkts) (DRaw r) o = Ret (rs, d', o') ->
+  all_ok rs /\ wscr o' = wscr o /\ cscr o' = cscr o /\ admissible (wscr o) (nwrite o') rest.
+Proof.
+  intros fuel pkts. induction pkts as [|b pkts IH]; intros rest r o fd c rs d' o' A Adm H.
+  - cbn [map run] in H. inversion H; subst. split. constructor. auto.
+  - cbn [map] in H. rewrite run_cons in H. cbn [app admissible] in Adm.
+    destruct Adm as (pat & Hd & Hs & Hz & Ht & Adm).
+    destruct (step fuel fixed (OAppend (mkPkt b [])) (DRaw r) o) as [[[d1 o1] st]|] eqn:E; [|discriminate].
+    destruct (run fuel fixed _ d1 o1) as [[[rs1 d2] o2]|] eqn:E2; [|discriminate].
+    inversion H; subst.
+    destruct (append_adm _ _ _ _ _ _ _ _ _ _ A Hd Hs Hz Ht E) as (-> & NW & WS & CS).
+    destruct (append_ok _ _ _ _ _ _ _ _ _ A E eq_refl) as (r1 & -> & U1 & A1 & Q1).
+    rewrite <- NW, <- WS in Adm.
+    destruct (IH _ _ _ _ _ _ _ _ A1 Adm E2) as (K & WS' & CS' & Adm').
+    split. { apply all_ok_cons. split; auto. }
+    rewrite WS in *. split; [congruence|]. split; [congruence|]. exact Adm'.
+Qed.
+
+(* one acquisition under an admissible script *)
+Lemma cycle_adm : forall fuel c rest r o rs d' o',
+  r_open r = false -> r_state r <> Running ->
+  (forall k, cscr o k = COk) -> c_path c <> EmptyString -> admissible (wscr o) (nwrite o) (c_pkts c ++ rest) ->
+  run fuel fixed (cycle_ops c) (DRaw r) o = Ret (rs, d', o') ->
+  all_ok rs /\ (forall k, cscr o' k = COk) /\ wscr o' = wscr o /\ admissible (wscr o) (nwrite o') rest.
+Proof.
+  intros fuel c rest r o rs d' o' RO RS CS P Adm H. unfold cycle_ops in H. unfold c_path in P.
+  (* set *)
+  rewrite run_cons in H. cbn [step] in H. unfold hal_set in H. cbn [dev_set] in H. unfold raw_set in H.
+  destruct (file_is_writable o (strip (c_uri c))) as [o1 okw] eqn:E1.
+  pose proof (file_is_writable_ok _ _ _ _ CS P E1). subst okw.
+  apply file_is_writable_scr in E1. destruct E1 as (C1 & W1 & N1).
+  cbn [put_state r_uri r_fid r_open r_off dstate_eqb] in H.
+  (* start *)
+  rewrite run_cons in H. cbn [step] in H. unfold hal_start in H. cbn [get_state r_state dstate_eqb dev_start] in H.
+  unfold raw_start in H. cbn [r_uri r_state r_open r_off fix_d3 fix_d4 fixed] in H.
+  destruct (file_create o1 (strip (c_uri c))) as [[o2 okc] fid] eqn:E2.
+  assert (CS1 : forall k, cscr o1 k = COk) by (intros; rewrite C1; auto).
+  pose proof (file_create_ok _ _ _ _ _ CS1 P E2). subst okc.
+  pose proof (file_create_fs _ _ _ _ E2) as (F2 & F2').
+  assert (LK : exists fd, fid = Some fd /\ lookup fd (tbl o2) = Some (mkEnt Dev (strip (c_uri c)))).
+  { unfold file_create in E2. destruct (os_open o1 (strip (c_uri c))) as [o3 [fd|]] eqn:E3; [|inversion E2].
+    apply os_open_ok in E3. destruct E3 as (_ & T3 & _).
+    exists fd. destruct (cscr o1 (nopen o1)); cbv zeta in E2; inversion E2; subst; split; auto; simpl; rewrite T3;
+      simpl; now rewrite Nat.eqb_refl. }
+  destruct LK as (fd & -> & LK).
+  apply file_create_scr in E2. destruct E2 as (C2 & W2 & N2).
+  cbn [put_state dstate_eqb r_uri r_fid r_open r_off] in H.
+  match type of H with
+  | match (match run _ _ _ ?D _ with _ => _ end) with _ => _ end = _ => set (r0 := D) in *
+  end.
+  destruct (run fuel fixed (map (fun b => OAppend (mkPkt b [])) (c_pkts c) ++ [OStop]) r0 o2) as [[[rs2 d2] o3]|] eqn:E3;
+    [|discriminate].
+  inversion H; subst rs d' o'. clear H.
+  apply run_app in E3. destruct E3 as (rsa & da & oa & rsb & Ea & Eb & ->).
+  subst r0.
+  match type of Ea with run _ _ _ (DRaw ?R) _ = _ => set (r0 := R) in * end.
+  assert (A0 : raw_at r0 o2 fd []).
+  { unfold raw_at, r0. cbn [r_open r_state r_fid r_uri r_off]. auto 10. }
+  assert (Adm2 : admissible (wscr o2) (nwrite o2) (c_pkts c ++ rest)) by (rewrite W2, W1, N2, N1; exact Adm).
+  destruct (appends_adm _ _ _ _ _ _ _ _ _ _ A0 Adm2 Ea) as (OKa & WSa & CSa & Adma).
+  destruct (appends_ok _ _ _ _ _ _ _ _ _ A0 Ea OKa) as (ra & -> & Ua & (RO' & RS' & RF' & LK' & FS' & OFF') & Qa).
+  (* stop *)
+  rewrite run_cons in Eb. cbn [step run] in Eb. unfold hal_stop in Eb. cbn [get_state] in Eb. rewrite RS' in Eb.
+  cbn [dstate_eqb dev_stop] in Eb. unfold raw_stop in Eb. cbn [fix_d4 fixed] in Eb. rewrite RO' in Eb.
+  cbn [dstate_eqb orb put_state] in Eb. inversion Eb; subst. clear Eb.
+  destruct (os_close_scr oa (r_fid ra)) as (C4 & W4 & N4). unfold file_close.
+  split.
+  { apply all_ok_cons. split; [reflexivity|]. apply all_ok_cons. split; [reflexivity|].
+    apply all_ok_app. split; auto. apply all_ok_cons. split; [reflexivity|]. constructor. }
+  split. { intros k. rewrite C4, CSa, C2, C1. auto. }
+  split. { rewrite W4, WSa, W2, W1. auto. }
+  rewrite N4. rewrite W2, W1 in Adma. exact Adma.
+Qed.
+
+Lemma history_adm : forall fuel cycles r o rs d' o',
+  r_open r = false -> r_state r <> Running ->
+  (forall k, cscr o k = COk) -> (forall c, In c cycles -> c_path c <> EmptyString) ->
+  admissible (wscr o) (nwrite o) (flat_map c_pkts cycles) ->
+  run fuel fixed (history cycles) (DRaw r) o = Ret (rs, d', o') -> all_ok rs.
+Proof.
+  intros fuel cycles. induction cycles as [|c cycles IH]; intros r o rs d' o' RO RS CS P Adm H.
+  - cbn in H. inversion H; subst. constructor.
+  - unfold history in H. cbn [flat_map] in H, Adm. apply run_app in H.
+    destruct H as (rs1 & d1 & o1 & rs2 & E1 & E2 & ->).
+    destruct (cycle_adm _ _ _ _ _ _ _ _ RO RS CS (P c (or_introl eq_refl)) Adm E1) as (OK1 & CS1 & WS1 & Adm1).
+    destruct (cycle_ok _ _ _ _ _ _ _ RO RS E1 OK1) as (r1 & -> & RO1 & RS1 & _).
+    apply all_ok_app. split; auto.
+    eapply (IH r1 o1); eauto.
+    + intros c' Hin. apply P. now right.
+    + rewrite WS1. exact Adm1.
+Qed.
+
+(* C14_exact with the premise on the scripts: every open succeeds, the write script is admissible for the packets *)
+Lemma c14_exact_scripts : forall fuel cycles env_fds ws rs d' o',
+  (forall c, In c cycles -> c_path c <> EmptyString) ->
+  admissible ws 0 (flat_map c_pkts cycles) ->
+  run fuel fixed (history cycles) (dev_init KRaw) (os_init env_fds (fun _ => COk) ws) = Ret (rs, d', o') ->
+  all_ok rs /\
+  forall pre c post, cycles = pre ++ c :: post -> (forall c', In c' post -> c_path c' <> c_path c) ->
+  fs o' (c_path c) = Some (c_bytes c).
+Proof.
+  intros fuel cycles env_fds ws rs d' o' P Adm H. destruct raw_init_idle as [A B].
+  assert (OK : all_ok rs).
+  { apply (history_adm fuel cycles raw_init (os_init env_fds (fun _ => COk) ws) rs d' o'); auto. }
+  split; auto. eapply c14_exact; eauto.
+Qed.
+
+(* ... and the run exists (no call of the repaired code diverges: C16Proofs.run_total) *)
+From FileIO Require Import C16Proofs.
+Lemma c14_exact_scripts_total : forall fuel cycles env_fds ws, 4 <= fuel ->
+  (forall c, In c cycles -> c_path c <> EmptyString) ->
+  admissible ws 0 (flat_map c_pkts cycles) ->
+  exists rs d' o',
+    run fuel fixed (history cycles) (dev_init KRaw) (os_init env_fds (fun _ => COk) ws) = Ret (rs, d', o') /\
+    all_ok rs /\
+    forall pre c post, cycles = pre ++ c :: post -> (forall c', In c' post -> c_path c' <> c_path c) ->
+    fs o' (c_path c) = Some (c_bytes c).
+Proof.
+  intros fuel cycles env_fds ws Hf P Adm.
+  destruct (run_total fuel (history cycles) (dev_init KRaw) (os_init env_fds (fun _ => COk) ws) Hf) as [[[rs d'] o'] E].
+  exists rs, d', o'. split; auto. eapply c14_exact_scripts; eauto.
+Qed.
